@@ -8,7 +8,7 @@
 (* doc, outcome, result, data, keys, fidx ; for "build": fn, datum, pre,   *)
 (* actuals, proj.                                                          *)
 (***************************************************************************)
-EXTENDS Path, Json, IOUtils, TLC
+EXTENDS Build, Json, IOUtils, TLC
 
 Events == ndJsonDeserialize(IOEnv.TRACE_FILE)
 VARIABLE i
@@ -48,29 +48,6 @@ BuildClauses(e) ==
      <<"DslStoresDocumentedArguments", (st.ok /\ e.outcome = "ok") =>
           /\ e.proj.t = "leaf" /\ e.proj.fn = e.fn /\ e.proj.datum = e.datum /\ e.proj.pre = e.pre
           /\ SameArgsFn(e.fn, e.proj.args, e.proj.kw, st.args, st.kw)>> >>
-
-\* a tree built bottom-up with the real operators / classes: the specification applies the DSL
-\* binding (Store) and the null short-circuit itself and compares with the projection of the result
-RECURSIVE NormT(_)
-NormT(t) == CASE t.t = "null" -> Null
-              [] t.t = "leaf" -> t
-              [] t.t = "rleaf" -> LET st == Store(t.fn, t.actuals, t.akw) IN Leaf(t.datum, t.pre, t.fn, st.args, st.kw)
-              [] OTHER -> BinN(t.t, NormT(t.l), NormT(t.r))
-RECURSIVE StoreOk(_)
-StoreOk(t) == CASE t.t \in {"null", "leaf"} -> TRUE
-                [] t.t = "rleaf" -> Store(t.fn, t.actuals, t.akw).ok
-                [] OTHER -> StoreOk(t.l) /\ StoreOk(t.r)
-RECURSIVE MixErr(_)
-MixErr(t) == IF t.t \in {"null", "leaf", "rleaf"} THEN FALSE
-             ELSE \/ MixErr(t.l) \/ MixErr(t.r)
-                  \/ LET n == NormT(t) IN n.t \in Ops /\ NormT(t.l).t # "null" /\ NormT(t.r).t # "null" /\ MixesKeyIndex(n)
-\* projection p (stored form) is the normal-form term n
-RECURSIVE TermSame(_, _)
-TermSame(p, n) ==
-  CASE n.t = "null" -> p.t = "null"
-    [] n.t = "leaf" -> /\ p.t = "leaf" /\ p.fn = n.fn /\ p.datum = n.datum /\ p.pre = n.pre
-                       /\ SameArgsFn(n.fn, p.args, p.kw, n.args, n.kw)
-    [] OTHER -> p.t = n.t /\ TermSame(p.l, n.l) /\ TermSame(p.r, n.r)
 
 BuildTreeClauses(e) ==
   LET t == e.cond IN
